@@ -283,6 +283,10 @@ class FortranAST:
                     inc.scope_objs = added_entities
 
     def resolve_links(self, obj_tree, link_version):
+        # The type found for a variable may belong to a syntax tree that has
+        # been replaced since; look it up again on next use
+        for var_obj in self.variable_list:
+            var_obj.type_obj = None
         for inherit_obj in self.inherit_objs:
             inherit_obj.resolve_inherit(obj_tree, inherit_version=link_version)
         for linkable_obj in self.linkable_objs:
